@@ -72,6 +72,15 @@ impl RtpsWriterProxy {
         }
     }
 
+    pub fn set_locators(
+        &mut self,
+        unicast_locator_list: &[Locator],
+        multicast_locator_list: &[Locator],
+    ) {
+        self.unicast_locator_list = unicast_locator_list.to_vec();
+        self.multicast_locator_list = multicast_locator_list.to_vec();
+    }
+
     pub fn push_data_frag(&mut self, submessage: DataFragSubmessage) {
         // Fragments that cannot belong to any sample (RTPS 8.3.7.3.3) are dropped here: a zero fragment or sample size,
         // no fragments, or fragment numbers outside of the sample
